@@ -1,8 +1,437 @@
 import Got.Drv.Common
-/- driver for the ants model family (properties C07, C08): to be written -/
-namespace Got.Drv.Ants
+import Got.Model.Ants
+import Std.Data.HashSet
+/-
+drv_ants (properties C07, C08): monitor for virtual-time scenarios of the ants pool.
 
-def main (_args : List String) : IO Unit := do
-  IO.eprintln "drv_ants: not implemented"
+script line:   n <N> [old] [park <site>:<ordinal>:<until>]* | <task> ; <task> ; ...
+  task      =  <g> <time> <T> <R> <discard 0/1> <cb 0/1> <beh>,<beh>,...
+  beh       =  <dur>:<hon 0/1>:<val>:<errcode>     behaviour of the j-th handler invocation of that task
+                (runs `dur` ns then returns (val, errcode); errcode 0 = nil; a handler with hon=1 returns
+                (nil, E999) as soon as its ctx is done)
+  task i is sent by client goroutine g at virtual instant `time` (or as soon as g's previous Send returned).
+  park s:o:u = the o-th call of ants.VerifHook(site s) blocks until instant u.
+monitor input:  <script line> TAB <observation of the real code>
+output:         ok | ok overflow | reject model-allows: <outcome> || <outcome> ...
+The monitor explores EVERY interleaving of the model (Got.Model.Ants.step) under maximal progress
+for the scripted environment and accepts iff the observation is one of the possible final outcomes.
+`drv_ants outcomes` prints the set of model outcomes for each script line instead.
+-/
+namespace Got.Drv.Ants
+open Got.Model.Ants Got.Drv
+
+structure Beh where
+  dur : Nat
+  hon : Bool
+  v : Nat
+  e : Nat
+  deriving Inhabited
+
+structure TaskSpec where
+  g : Nat
+  time : Nat
+  opts : Opts
+  behs : Array Beh
+  deriving Inhabited
+
+structure Park where
+  site : Nat
+  ord : Nat
+  until_ : Nat
+
+structure Scen where
+  cfg : Cfg
+  parks : List Park
+  tasks : Array TaskSpec
+  nopor : Bool := false
+
+structure DState where
+  s : State
+  c1 : Nat := 0
+  c2 : Nat := 0
+  c3 : Nat := 0
+  arrived : List (Nat × Nat × Nat × Nat) := []    -- (site, task, attempt, release time)
+
+def errOf (c : Nat) : Err := if c = 0 then .nil else .h c
+def cancelledErr : Err := .h 999
+
+/-! parsing -/
+def parseBeh (s : String) : Option Beh :=
+  match s.splitOn ":" with
+  | [d, h, v, e] =>
+    match d.toNat?, h.toNat?, v.toNat?, e.toNat? with
+    | some d, some h, some v, some e => some { dur := d, hon := h != 0, v := v, e := e }
+    | _, _, _, _ => none
+  | _ => none
+
+def parseTask (s : String) : Option TaskSpec :=
+  match words s with
+  | [g, tm, T, R, d, cb, behs] =>
+    match g.toNat?, tm.toNat?, T.toInt?, R.toInt?, d.toNat?, cb.toNat? with
+    | some g, some tm, some T, some R, some d, some cb =>
+      match (behs.splitOn ",").mapM parseBeh with
+      | some bs => some { g := g, time := tm, opts := { timeout := T, retry := R, discard := d != 0, hasCb := cb != 0 },
+                          behs := bs.toArray }
+      | none => none
+    | _, _, _, _, _, _ => none
+  | _ => none
+
+def parseHead : List String → Option (Cfg × List Park)
+  | "n" :: n :: rest =>
+    match n.toNat? with
+    | none => none
+    | some n =>
+      let rec go : List String → Cfg → List Park → Option (Cfg × List Park)
+        | [], c, ps => some (c, ps.reverse)
+        | "old" :: r, c, ps => go r { c with old := true } ps
+        | "park" :: p :: r, c, ps =>
+          match p.splitOn ":" with
+          | [s, o, u] =>
+            match s.toNat?, o.toNat?, u.toNat? with
+            | some s, some o, some u => go r c ({ site := s, ord := o, until_ := u } :: ps)
+            | _, _, _ => none
+          | _ => none
+        | _, _, _ => none
+      go rest { N := n } []
+  | _ => none
+
+def parseScen (line : String) : Option Scen :=
+  match line.splitOn " | " with
+  | [h, b] =>
+    match parseHead (words h) with
+    | none => none
+    | some (c, ps) =>
+      let ts := (b.splitOn " ; ").filter (fun x => (words x) ≠ [])
+      match ts.mapM parseTask with
+      | some ts => some { cfg := c, parks := ps, tasks := ts.toArray }
+      | none => none
+  | [h] =>
+    match parseHead (words h) with
+    | some (c, ps) => some { cfg := c, parks := ps, tasks := #[] }
+    | none => none
+  | _ => none
+
+/-! rendering (must agree character by character with harness/cmd/c07) -/
+def showErr : Err → String
+  | .nil => "nil" | .de => "DE" | .discard => "DISC" | .h c => s!"E{c}"
+
+def showPair (p : Val × Err) : String := s!"{p.1}:{showErr p.2}"
+
+def insertBy {α : Type} (key : α → Nat) (x : α) : List α → List α
+  | [] => [x]
+  | y :: ys => if key x < key y then x :: y :: ys else y :: insertBy key x ys
+
+def sortBy {α : Type} (key : α → Nat) (xs : List α) : List α := xs.foldl (fun acc x => insertBy key x acc) []
+
+def renderTask (t : Task) : String :=
+  let atts := (List.range t.att).map t.at_
+  let invs := sortBy (fun x : Att => x.invIdx) (atts.filter (fun x => x.starts > 0))
+  let invS := "|".intercalate (invs.map fun x =>
+    match x.ret with
+    | some p => s!"{x.beginAt}:{x.hStart}:{x.hEnd}:{showPair p}"
+    | none => s!"{x.beginAt}:{x.hStart}:-:-")
+  let onS := ",".intercalate (t.onErr.map fun p => s!"{showErr p.1}@{p.2}")
+  match t.pc with
+  | .none => "unsent"
+  | .discarded => s!"len={t.lenAtSend} dis ret={t.sendRet} inv=[{invS}] onerr=[{onS}] get=0:DISC@{t.sendRet} get2=0:DISC err=DISC"
+  | .done =>
+    let g1 := match t.got with | some p => showPair p | none => "-"
+    s!"len={t.lenAtSend} acc ret={t.sendRet} inv=[{invS}] onerr=[{onS}] get={g1}@{t.doneAt} get2={showPair (t.result, t.err)} err={showErr t.err}"
+  | .sendTest | .discardCb | .enq => s!"len={t.lenAtSend} blocked inv=[{invS}] onerr=[{onS}]"
+  | _ => s!"len={t.lenAtSend} acc ret={t.sendRet} inv=[{invS}] onerr=[{onS}] get=- get2=- err=-"
+
+def render (sc : Scen) (d : DState) : String :=
+  let ts := (List.range sc.tasks.size).map fun k => renderTask (d.s.task k)
+  " ; ".intercalate ts ++ s!" # max={d.s.maxRunning}"
+
+
+/-! the observation, parsed, is used to prune executions that already contradict it (the final
+    acceptance test is still the equality of the complete rendering) -/
+structure ObsTask where
+  kind : String := "unsent"
+  len : String := ""
+  ret : String := ""
+  invs : Array (List String) := #[]
+  onerr : List String := []
+  get : String := ""
+  deriving Inhabited
+
+structure Obs where
+  tasks : Array ObsTask
+  max : Nat
+
+def bracket (s : String) : String := ((s.splitOn "[").getD 1 "").dropEnd 1 |>.toString
+
+def parseObsTask (s : String) : ObsTask := Id.run do
+  let mut o : ObsTask := {}
+  for w in words s do
+    if w = "acc" || w = "dis" || w = "blocked" || w = "unsent" then o := { o with kind := w }
+    else if w.startsWith "len=" then o := { o with len := (w.drop 4).toString }
+    else if w.startsWith "ret=" then o := { o with ret := (w.drop 4).toString }
+    else if w.startsWith "inv=" then
+      let b := bracket w
+      o := { o with invs := if b.isEmpty then #[] else ((b.splitOn "|").map (fun x => x.splitOn ":")).toArray }
+    else if w.startsWith "onerr=" then
+      let b := bracket w
+      o := { o with onerr := if b.isEmpty then [] else b.splitOn "," }
+    else if w.startsWith "get=" then o := { o with get := (w.drop 4).toString }
+  return o
+
+def parseObs (impl : String) : Obs :=
+  match impl.splitOn " # max=" with
+  | [a, m] => { tasks := ((a.splitOn " ; ").map parseObsTask).toArray, max := m.toNat?.getD 0 }
+  | _ => { tasks := #[], max := 0 }
+
+def taskConsistent (t : Task) (o : ObsTask) : Bool :=
+  if t.pc = .none then true else
+  toString t.lenAtSend == o.len &&
+  (match t.pc with
+   | .sendTest | .discardCb | .enq => o.kind != "unsent"
+   | .discarded => o.kind == "dis" && toString t.sendRet == o.ret
+   | _ => o.kind == "acc" && toString t.sendRet == o.ret) &&
+  decide (t.inv ≤ o.invs.size) &&
+  ((List.range t.att).all fun a =>
+    let x := t.at_ a
+    if x.starts = 0 then true else
+    match o.invs[x.invIdx]? with
+    | none => false
+    | some f =>
+      f.getD 0 "" == toString x.beginAt && f.getD 1 "" == toString x.hStart &&
+      (match x.ret with
+       | none => true
+       | some p => f.getD 2 "" == toString x.hEnd && (f.getD 3 "" ++ ":" ++ f.getD 4 "") == showPair p)) &&
+  (t.onErr.map fun p => s!"{showErr p.1}@{p.2}").isPrefixOf o.onerr &&
+  (match t.pc, t.got with
+   | .done, some p => o.get == s!"{showPair p}@{t.doneAt}"
+   | _, _ => true)
+
+def consistent (sc : Scen) (ob : Obs) (d : DState) : Bool :=
+  decide (d.s.maxRunning ≤ ob.max) && decide (ob.tasks.size = sc.tasks.size) &&
+  (List.range sc.tasks.size).all fun k => taskConsistent (d.s.task k) (ob.tasks[k]!)
+
+/-! canonical key of a state (finite support: tasks of the scenario, attempts < att, slots < N) -/
+def encErr : Err → Nat
+  | .nil => 0 | .de => 1 | .discard => 2 | .h c => 3 + c
+
+def encTPc : TPc → Nat
+  | .none => 0 | .sendTest => 1 | .discardCb => 2 | .discarded => 3 | .enq => 4 | .queued => 5
+  | .loopTest => 6 | .sendCl => 7 | .hook3 => 8 | .select => 9 | .hook2 => 10 | .decide => 11
+  | .writeDE => 12 | .waitDone => 13 | .cancel => 14 | .errTest => 15 | .onError => 16 | .wgDone => 17 | .done => 18
+
+/-- inner workers are interchangeable (`step` is equivariant under permutations of slot ids), so the
+    key forgets which slot a closure occupies -/
+def encCPc : CPc → List Nat
+  | .none => [0] | .queued => [1] | .taken _ => [2] | .running _ h => [3, h.toNat]
+  | .returned _ v e => [4, v, encErr e] | .hook1 _ v e => [5, v, encErr e] | .cas _ v e => [6, v, encErr e]
+  | .write _ v e => [7, v, encErr e] | .closing _ => [8] | .closed => [9]
+
+def encOpt : Option (Val × Err) → List Nat
+  | none => [0] | some (v, e) => [1, v, encErr e]
+
+def encAtt (x : Att) : List Nat :=
+  encCPc x.pc ++ [x.decided, x.closedCh.toNat, x.ctxDone.toNat, x.deadline, x.beginAt] ++ encOpt x.ret ++
+    [x.sawLive.toNat, x.starts, x.hStart, x.hEnd, x.invIdx]
+
+def encTask (t : Task) : List Nat :=
+  [encTPc t.pc, t.att, t.result, encErr t.err, t.inv, t.lenAtSend, t.lenAtTest, t.sendAt, t.sendRet, t.pickAt, t.doneAt]
+    ++ encOpt t.got ++ [t.onErr.length] ++ t.onErr.flatMap (fun p => [encErr p.1, p.2])
+    ++ (List.range t.att).flatMap (fun a => encAtt (t.at_ a))
+
+def keyOf (sc : Scen) (d : DState) : List Nat :=
+  let s := d.s
+  [s.now, s.running, s.maxRunning, d.c1, d.c2, d.c3, s.taskQ.length] ++ s.taskQ ++ [s.innerQ.length]
+    ++ s.innerQ.flatMap (fun p => [p.1, p.2])
+    ++ [d.arrived.length] ++ d.arrived.flatMap (fun (a, b, c, e) => [a, b, c, e])
+    ++ (List.range sc.tasks.size).flatMap (fun k => encTask (s.task k))
+
+/-! scripted environment -/
+def behOf (sc : Scen) (k j : Nat) : Beh :=
+  let bs := (sc.tasks[k]!).behs
+  if h : j < bs.size then bs[j] else if h2 : 0 < bs.size then bs[bs.size - 1] else { dur := 0, hon := true, v := 1, e := 0 }
+
+def sendReturned (p : TPc) : Bool :=
+  match p with
+  | .none | .sendTest | .discardCb | .enq => false
+  | _ => true
+
+def sendReady (sc : Scen) (s : State) (k : Nat) : Bool :=
+  let ts := sc.tasks[k]!
+  (s.task k).pc = .none && decide (ts.time ≤ s.now) &&
+    (List.range k).all fun j => (sc.tasks[j]!).g != ts.g || sendReturned (s.task j).pc
+
+def tryStep (sc : Scen) (d : DState) (a : Act) : List DState :=
+  match step sc.cfg d.s a with
+  | some s' => [{ d with s := s' }]
+  | none => []
+
+def hookGate (sc : Scen) (d : DState) (site k a : Nat) (act : Act) : List DState :=
+  if sc.parks.isEmpty then tryStep sc d act
+  else
+    match d.arrived.find? (fun (x : Nat × Nat × Nat × Nat) => x.1 = site ∧ x.2.1 = k ∧ x.2.2.1 = a) with
+    | none =>
+      let ord := (match site with | 1 => d.c1 | 2 => d.c2 | _ => d.c3) + 1
+      let rel := match sc.parks.find? (fun p => p.site = site ∧ p.ord = ord) with
+        | some p => p.until_ | none => 0
+      let d' := match site with
+        | 1 => { d with c1 := ord } | 2 => { d with c2 := ord } | _ => { d with c3 := ord }
+      [{ d' with arrived := d.arrived ++ [(site, k, a, rel)] }]
+    | some (_, _, _, rel) =>
+      if rel ≤ d.s.now then
+        (tryStep sc d act).map fun d' =>
+          { d' with arrived := d.arrived.filter (fun x => !(x.1 = site ∧ x.2.1 = k ∧ x.2.2.1 = a)) }
+      else []
+
+
+/-! partial-order reduction: a transition that is independent of every transition of every other
+    goroutine that can still happen at this instant (checked on the current state, not assumed from
+    invariants) is taken alone. Used only for the current code without parks. -/
+def noWriter (t : Task) : Bool :=
+  (List.range t.att).all fun a =>
+    let x := t.at_ a
+    (match x.pc with | .write _ _ _ => false | _ => true) &&
+    (x.decided != 0 || (match x.pc with | .closing _ | .closed => true | _ => false))
+
+def safeAct (s : State) (k : Nat) : Option Act :=
+  let t := s.task k
+  let c := t.at_ t.cur
+  let own : Option Act := match t.pc with
+    | .hook3 => some (.hook3 k) | .hook2 => some (.hook2 k) | .loopTest => some (.loopTest k)
+    | .select => if c.closedCh then some (.selDone k) else if c.ctxDone then some (.selCtx k) else none
+    | .waitDone => if c.closedCh then some (.waitDone k) else none
+    | .decide =>
+      if c.decided != 0 || (match c.pc with | .closing _ | .closed => true | _ => false) then some (.decide k) else none
+    | .writeDE => if noWriter t then some (.writeDE k) else none
+    | .cancel => if c.ctxDone || (match c.pc with | .closed => true | _ => false) then some (.cancel k) else none
+    | .errTest => if noWriter t then some (.errTest k) else none
+    | .onError => if noWriter t then some (.onError k) else none
+    | .wgDone => if noWriter t then some (.wgDone k) else none
+    | _ => none
+  match own with
+  | some a => some a
+  | none =>
+    (List.range t.att).findSome? fun a =>
+      let x := t.at_ a
+      match x.pc with
+      | .hook1 _ _ _ => some (Act.hook1 k a)
+      | .cas _ _ _ => if x.decided != 0 then some (.wCas k a) else none
+      | .returned _ _ _ => if x.ctxDone then some (.wCheck k a) else none
+      | .write _ _ _ =>
+        (match t.pc with
+         | .hook3 | .select | .hook2 | .decide | .waitDone => some (Act.wWrite k a)
+         | _ => none)
+      | .closing _ => some (.wClose k a)
+      | _ => none
+
+/-- all successor states by non-clock transitions at the current instant -/
+def succsAll (sc : Scen) (d : DState) : List DState :=
+  let s := d.s
+  (List.range sc.tasks.size).flatMap fun k =>
+    let t := s.task k
+    if t.pc = .none then
+      if sendReady sc s k then tryStep sc d (.send k (sc.tasks[k]!).opts) else []
+    else
+      let internal := (taskActs sc.cfg s k).flatMap fun a =>
+        match a with
+        | .wTake k a w =>
+          -- inner workers are interchangeable: only the lowest free slot is tried
+          if (List.range w).all (fun w' => (s.slot w').isSome) then tryStep sc d (.wTake k a w) else []
+        | .wStart k a _ => tryStep sc d (.wStart k a (behOf sc k t.inv).hon)
+        | .hook1 k a => hookGate sc d 1 k a (.hook1 k a)
+        | .hook2 k => hookGate sc d 2 k t.cur (.hook2 k)
+        | .hook3 k => hookGate sc d 3 k t.cur (.hook3 k)
+        | a => tryStep sc d a
+      let ends := (List.range t.att).flatMap fun a =>
+        let x := t.at_ a
+        match x.pc with
+        | .running _ hon =>
+          let b := behOf sc k x.invIdx
+          (if x.hStart + b.dur ≤ s.now then tryStep sc d (.wEnd k a b.v (errOf b.e)) else []) ++
+          (if hon && x.ctxDone then tryStep sc d (.wEnd k a 0 cancelledErr) else [])
+        | _ => []
+      internal ++ ends
+
+def succs (sc : Scen) (d : DState) : List DState :=
+  if sc.cfg.old || sc.nopor || !sc.parks.isEmpty then succsAll sc d
+  else
+    match (List.range sc.tasks.size).findSome? (fun k => (safeAct d.s k).bind fun a => (tryStep sc d a).head?) with
+    | some d' => [d']
+    | none => succsAll sc d
+
+/-- the next instant at which something is scheduled -/
+def nextTime (sc : Scen) (d : DState) : Option Nat :=
+  let s := d.s
+  let cands : List Nat := (List.range sc.tasks.size).flatMap fun k =>
+    let t := s.task k
+    (if t.pc = .none then [(sc.tasks[k]!).time] else []) ++
+    (List.range t.att).flatMap fun a =>
+      let x := t.at_ a
+      (if x.ctxDone then [] else [x.deadline]) ++
+      (match x.pc with
+       | .running _ _ => [x.hStart + (behOf sc k x.invIdx).dur]
+       | _ => [])
+  let cands := cands ++ d.arrived.map (fun x => x.2.2.2)
+  (cands.filter (fun t => s.now < t)).foldl (fun acc t => match acc with | none => some t | some m => some (min m t)) none
+
+/-- explore all executions; returns (final outcomes, overflow) -/
+def exploreN (sc : Scen) (limit : Nat) (ob : Option Obs := none) : List String × Bool × Nat := Id.run do
+  let mut stack : List DState := [{ s := init }]
+  let mut seen : Std.HashSet (List Nat) := {}
+  let mut finals : Std.HashSet String := {}
+  let mut n := 0
+  for _ in [0:limit] do
+    match stack with
+    | [] => break
+    | d :: rest =>
+      stack := rest
+      let key := keyOf sc d
+      if seen.contains key then continue
+      seen := seen.insert key
+      n := n + 1
+      if let some o := ob then
+        if !consistent sc o d then continue
+      let nx := succs sc d
+      if !nx.isEmpty then
+        stack := (nx.filter fun x => !seen.contains (keyOf sc x)) ++ stack
+      else
+        match nextTime sc d with
+        | some t =>
+          match step sc.cfg d.s (.advance t) with
+          | some s' => stack := { d with s := s' } :: stack
+          | none => finals := finals.insert ("stuck-clock " ++ render sc d)
+        | none => finals := finals.insert (render sc d)
+  return (finals.toList, !stack.isEmpty, n)
+
+def explore (sc : Scen) (limit : Nat) (ob : Option Obs := none) : List String × Bool :=
+  let (a, b, _) := exploreN sc limit ob
+  (a, b)
+
+def exploreLimit : Nat := 400000
+
+def monitorLine (line : String) : String :=
+  match line.splitOn "\t" with
+  | [script, impl] =>
+    match parseScen script with
+    | none => "reject bad-script"
+    | some sc =>
+      let (fin, ovf) := explore sc exploreLimit (some (parseObs impl))
+      if fin.contains impl then "ok"
+      else if ovf then "ok overflow"
+      else
+        let (all, _) := explore sc 20000
+        "reject model-allows: " ++ " || ".intercalate (all.take 3)
+  | _ => "reject bad-line"
+
+def outcomesLine (nopor : Bool) (line : String) : String :=
+  match parseScen ((line.splitOn "\t").headD "") with
+  | none => "bad-script"
+  | some sc =>
+    let sc := { sc with nopor := nopor }
+    let (fin, ovf, n) := exploreN sc exploreLimit
+    let fin := sortBy (fun (x : String) => (hash x).toNat) fin
+    s!"{fin.length}{if ovf then " overflow" else ""} states={n}: " ++ " || ".intercalate fin
+
+def main (args : List String) : IO Unit := do
+  let f := if args.contains "outcomes" then outcomesLine (args.contains "nopor") else monitorLine
+  lineLoop (← IO.getStdin) (← IO.getStdout) (fun (_ : Unit) l => ((), if l.isEmpty then "" else f l)) ()
 
 end Got.Drv.Ants
